@@ -149,12 +149,14 @@ def check_pcgrad(ctx: Ctx, J, dtype):
 
 
 # ------------------------------------------------------------------------------------------ GradDrop
-def check_graddrop(ctx: Ctx, J, dtype):
+def check_graddrop(ctx: Ctx, J, dtype, nonuniform_leak=False):
     rng = ctx.rng
     m, n = len(J), len(J[0])
     Jt = to_tensor(J, dtype)
     uu = Fr(ulp(dtype))
     leak = rng.choice([None, [Fr(rng.randint(0, 8), 8) for _ in range(m)], [Fr(0)] * m, [Fr(1)] * m])
+    if nonuniform_leak:
+        leak = [Fr(k % 5, 4) for k in rng.sample(range(1, 20), m)]
     lk = leak if leak is not None else [Fr(0)] * m
     P = []
     for c in range(n):
@@ -269,6 +271,14 @@ def main(ctx: Ctx):
         if all(v == 0 for r in J for v in r):
             continue
         check_mgda(ctx, J, dtype)
+        if i % 6 == 3:
+            # two conflicting rows, one 30..1000 times longer than the other: the minimum-norm point of the segment is
+            # interior with a tiny weight on the long row (two-row exactness clause)
+            K = rng.choice([30, 50, 200, 1000])
+            Jr = [[Fr(1), Fr(0), Fr(0)], [Fr(-1), Fr(K), Fr(rng.randint(0, 3))]]
+            rng.shuffle(Jr)
+            ctx.count("mgda_two_rows_unbalanced")
+            check_mgda(ctx, Jr, torch.float64)
         if i % 6 == 0:
             # nearly balanced orthogonal rows: the first Frank-Wolfe steps are tiny (gamma ~ 1e-4); with epsilon = 0 the
             # iteration must go on all the same, with epsilon = 1e-3 it must stop after the first update
@@ -285,6 +295,11 @@ def main(ctx: Ctx):
         if i % 2 == 0 or m <= 3:
             check_pcgrad(ctx, J, torch.float64)
         check_graddrop(ctx, J, dtype)
+        if i % 5 == 2 and m >= 2:
+            Jz = [list(r) for r in J]
+            Jz[rng.randrange(m - 1)] = [Fr(0)] * len(J[0])         # an objective whose gradient vanishes, not listed last
+            ctx.count("graddrop_zero_row")
+            check_graddrop(ctx, Jz, dtype, nonuniform_leak=True)
         if i % 10 == 0:
             check_graddrop_empty(ctx, dtype)
         check_random(ctx, J, dtype)
